@@ -189,6 +189,7 @@ var props = map[string]PropSpec{
 		Quick: []HarnessRun{
 			{Name: "bf.VP_C17_bf_parse", Kind: "E", Params: map[string]int{"bin": 1, "nots": 1, "groups": 1, "wraps": 1}, Bounds: "syntax trees with <=1 binary operator from ; = -> | &, <=1 negation, <=1 exactly-one group {..} of 1..3 names, <=1 redundant parenthesis pair; identifiers a, b, ab; three spacings; equivalence with the documented reading decided over symbolic assignments", Require: []string{"parsed"}},
 			{Name: "bf.VP_C17_bf_parse", Kind: "E", Params: map[string]int{"bin": 2, "nots": 1, "groups": 0, "wraps": 0, "spacing": 0}, Bounds: "<=2 binary operators (all priority pairs, left and right nesting), <=1 negation", Require: []string{"parsed"}},
+			{Name: "bf.VP_C17_bf_parse", Kind: "E", Params: map[string]int{"bin": 2, "nots": 0, "groups": 0, "wraps": 1, "spacing": 0}, Bounds: "<=2 binary operators with one redundant parenthesis pair anywhere", Require: []string{"parsed"}},
 			{Name: "bf.VP_C17_bf_parse_err", Kind: "E", Params: map[string]int{"bin": 1, "nots": 1, "groups": 1, "wraps": 1}, Bounds: "renderings as above with one corruption: operand deleted, binary operator duplicated, extra ')' at the end, extra '(' at the start, trailing identifier", Require: []string{"rejected"}},
 		},
 		Thorough: []HarnessRun{
@@ -260,6 +261,7 @@ var props = map[string]PropSpec{
 	"C15": {
 		ID: "C15",
 		Quick: []HarnessRun{
+			{Name: "solver.VP_C15_amo_equiv", Kind: "L", Params: map[string]int{"skeletons": 1, "maxsigns": 6, "dup": 1}, Bounds: "the 12 skeletons with 6 symbolic signs and one clause optionally repeated (right after the original or at the end)", Require: []string{"card-detected", "nothing-detected"}},
 			{Name: "solver.VP_C15_amo_equiv", Kind: "L", Params: map[string]int{"skeletons": 1, "maxsigns": 8}, Bounds: "12 clause skeletons rich in binary clauses (triangle, K4, K4 minus an edge in two orders, triangles sharing an edge, repeated clause, pendant clauses, disjoint triangles, cliques between unrelated clauses, star), the signs of the first 8 literals symbolic; equivalence before/after for a symbolic assignment", Require: []string{"card-detected", "nothing-detected"}},
 			{Name: "solver.VP_C15_amo_equiv", Kind: "L", Params: map[string]int{"n": 3, "m": 3, "k": 2}, Bounds: "all CNF with <=3 clauses x <=2 literals over 3 variables, literals fully symbolic", Require: []string{"card-detected", "nothing-detected"}},
 		},
@@ -276,6 +278,7 @@ var props = map[string]PropSpec{
 			{Name: "solver.VP_C18_print_roundtrip", Kind: "E", Params: map[string]int{"n": 2, "m": 2, "k": 2, "W": 2, "D": 3}, Bounds: "CNF (<=2 clauses x <=2 literals), cardinality and PB problems over 2 variables after parse-time simplification, with and without cost function; routes Problem.CNF->ParseCNF, Problem.PBString->ParseOPB, Solver.PBString->ParseOPB before and after Solve; models and costs compared for a symbolic assignment", Require: []string{"cnf", "opb", "solver-opb", "solver-opb-after-solve"}},
 			{Name: "solver.VP_C18_print_roundtrip", Kind: "E", Params: map[string]int{"n": 3, "m": 1, "k": 2, "W": 2, "D": 4, "CW": 1}, Bounds: "3 variables, <=1 clause, coefficients in [1,2]", Require: []string{"opb", "solver-opb"}},
 			{Name: "explain.VP_C18_explain_cnf", Kind: "E", Params: map[string]int{"n": 2, "m": 3, "k": 2}, Bounds: "explain.Problem.CNF() of problems with <=3 clauses x <=2 literals re-read by explain.ParseCNF", Require: []string{"explain-cnf"}},
+			{Name: "solver.VP_C18_solver_print_skeleton", Kind: "E", Params: map[string]int{"maxsigns": 10}, Bounds: "Solver.PBString after a Solve on 4 CNF skeletons over 4-6 variables with 10 symbolic signs (solver states holding learned clauses) re-read by ParseOPB", Require: []string{"solver-opb-after-solve", "learned"}},
 		},
 		Thorough: []HarnessRun{
 			{Name: "solver.VP_C18_print_roundtrip", Kind: "E", Params: map[string]int{"n": 3, "m": 2, "k": 2, "W": 3, "D": 6}, Bounds: "3 variables, <=2 clauses, coefficients in [1,3]", Require: []string{"cnf", "opb", "solver-opb", "solver-opb-after-solve"}},
